@@ -213,3 +213,58 @@ def c18_error_coercer(k: int, n: int) -> bool:
             if e.get("coerced") != n + rep or not isinstance(e.get("message"), str):
                 return verdict(False)
     return verdict(True)
+
+
+# ---- an argument whose SCHEMA default is refused by its own scalar at request time: the error is located in the request text -------------
+from tartiflette import Scalar  # noqa: E402
+from tartiflette.constants import UNDEFINED_VALUE  # noqa: E402
+
+
+class _Even:
+    def coerce_output(self, v):
+        return v
+
+    def coerce_input(self, v):
+        if isinstance(v, int) and not isinstance(v, bool) and v % 2 == 0:
+            return v
+        raise ValueError("odd")
+
+    def parse_literal(self, ast):
+        try:
+            v = int(ast.value)
+        except Exception:
+            return UNDEFINED_VALUE
+        return v if v % 2 == 0 else UNDEFINED_VALUE
+
+
+SDL_D = "scalar Even\n" + "# padding\n" * 12 + "type Query {\n  a: Int\n  half(of: Even = 7): Int\n  twice(of: Even = 8, n: Int): Int\n}\n"
+Scalar("Even", schema_name="c18d")(_Even)
+ENGD = build(SDL_D, "c18d", custom_default_resolver=_res, query_cache_decorator=None)
+DOCS_D = ["{ half }", "{ a half }", "query Q($v: Even) { half(of: $v) a }", "{\n  a\n  half\n}", "{ twice a }", "query Q($v: Even) { twice(of: $v) }", "{ half(of: 4) }", "{ x: half y: half(of: 2) }"]
+
+
+@obligation(tier="quick", timeout=120, samples=[{"k": 0, "v": None, "provide": False}, {"k": 2, "v": 3, "provide": True}, {"k": 5, "v": 4, "provide": True}],
+            symbolic=["v: Optional[int] — the variable's value when provided (the scalar accepts even numbers only)"],
+            selectors=["k: request (argument omitted / bound to a variable / supplied; the schema default is refused by its own scalar or accepted)", "provide: the variable gets a runtime value"],
+            bounds="8 requests against a schema whose argument default `Even = 7` is refused by the scalar at request time (the SDL places that default on line 16)",
+            note="never raises; well-formed response; every reported location lies inside the REQUEST text (never a position of the schema's SDL); a field whose default cannot be coerced fails alone")
+def c18_default_refused(k: int, v: Optional[int], provide: bool) -> bool:
+    """
+    post: _
+    """
+    k = pick(k, len(DOCS_D))
+    text = DOCS_D[k]
+    variables = {"v": v} if pickb(provide) else {}
+    del LOG[:]
+    ok, r = safe(lambda: env.run(ENGD.execute(text, variables=variables, initial_value=DATA)))
+    observe(text, variables, r)
+    if not ok or not wellformed(r, text):
+        return verdict(False)
+    if k in (0, 1, 3):
+        # the default 7 is refused: `half` is null with an error, the sibling still answers
+        if r.get("data") is None or r["data"].get("half") is not None or not r.get("errors"):
+            return verdict(False)
+        return verdict(k == 0 or r["data"].get("a") == 1)
+    if k == 4:
+        return verdict(r.get("data") == {"twice": None, "a": 1} and "errors" not in r)
+    return verdict(True)
